@@ -36,6 +36,8 @@ type frame struct {
 	innerEntry map[[2]*loop][]Term
 	viaFuncParam bool
 	ifaceMods    *ModSet
+	selfT        Term
+	dynSelf      Term
 }
 
 type retInfo struct {
@@ -127,6 +129,14 @@ func (fr *frame) val(v ssa.Value) Value {
 	case *ssa.Global:
 		return IntV(fr.fx.globalAddr(x), x.Type())
 	case *ssa.Function:
+		if x.Synthetic != "" {
+			// thunks and bound-method wrappers denote the method they wrap
+			if obj, ok := x.Object().(*types.Func); ok {
+				if m := fr.fx.E.P.SSA.FuncValue(obj); m != nil && len(m.Blocks) > 0 && strings.Contains(x.Name(), "$thunk") {
+					return IntV(fr.fx.funcID(FuncName(m)), x.Type())
+				}
+			}
+		}
 		return IntV(fr.fx.funcID(FuncName(x)), x.Type())
 	case *ssa.Builtin:
 		return IntV("0", x.Type())
@@ -926,6 +936,7 @@ func (fr *frame) env(cur, old *State, l *loop) *Env {
 		return fr.localValue(name, cur, l)
 	}
 	ev.preferLocals = l != nil
+	ev.selfT = fr.selfT
 	return ev
 }
 
